@@ -8,15 +8,18 @@ Import ListNotations.
 Inductive outcome := OAccept | OReject | OPanic.
 
 (* one Evaluate call: the key handed in, and None (panic) or the result bit and the key bytes
-   afterwards *)
-Definition run := (bytes * option (bool * bytes))%type.
+   afterwards (None when they are byte-for-byte the key handed in) *)
+Definition run := (bytes * option (bool * option bytes))%type.
+
+Definition key_after (r : run) (o : option bytes) : bytes :=
+  match o with Some k' => k' | None => fst r end.
 
 Inductive case :=
 | CEval (c : cond) (prep : outcome) (runs : list run).
 
 Definition run_corr (ic : icond) (r : run) : bool :=
   match eval ic (fst r), snd r with
-  | Ok (b, k'), Some (b', k'') => Bool.eqb b b' && bytes_eqb k' k''
+  | Ok (b, k'), Some (b', k'') => Bool.eqb b b' && bytes_eqb k' (key_after r k'')
   | Panic, None => true
   | _, _ => false
   end.
@@ -38,7 +41,7 @@ Definition corr (c : case) : bool :=
 Definition run_holds (cd : cond) (r : run) : bool :=
   match snd r with
   | None => false
-  | Some (b, k') => Bool.eqb b (sem cd (flow_of_key (fst r))) && bytes_eqb k' (fst r)
+  | Some (b, k') => Bool.eqb b (sem cd (flow_of_key (fst r))) && bytes_eqb (key_after r k') (fst r)
   end.
 
 (* does the observed behaviour satisfy the property? *)
